@@ -4,6 +4,8 @@
 //! Files written by `run`: ops.txt (one op per line), impl.out (one canonical line per op), oracle.out
 //! (`<line>\t<message>` per failed oracle predicate), meta.json (counts, build mode).
 
+mod c02;
+mod c03;
 mod c06;
 mod c07;
 mod c11;
@@ -88,6 +90,8 @@ fn oracle(prop: &str, op: &[&str], out: &str) -> Verdict {
         "C07" => c07::oracle(op, out),
         "C06" => c06::oracle(op, out),
         "C11" => c11::oracle(op, out),
+        "C02" => c02::oracle(op, out),
+        "C03" => c03::oracle(op, out),
         "C14" => c14::oracle(op, out),
         _ => Verdict::NotApplicable,
     }
@@ -99,6 +103,8 @@ fn generate(prop: &str, tier: &str, rng: &mut util::Prng) -> Vec<Case> {
         "C07" => c07::generate(tier, rng),
         "C06" => c06::generate(tier, rng),
         "C11" => c11::generate(tier, rng),
+        "C02" => c02::generate(tier, rng),
+        "C03" => c03::generate(tier, rng),
         "C14" => c14::generate(tier, rng),
         _ => {
             eprintln!("unknown property {prop}");
